@@ -25,7 +25,9 @@ class UserData:
         self.componentID = componentID
         self.creatorID = creatorID
         self.dataLength = sectionLen - 8
-        self.data = self.stream.get_mem(self.dataLength)
+        # A section may legitimately have no payload at all
+        self.data = self.stream.get_mem(self.dataLength) \
+            if self.dataLength != 0 else bytes()
 
     def toJSON(self, config: Config) -> OrderedDict:
 
